@@ -740,6 +740,10 @@ macro_rules! packet_kinds {
         pub fn kind_of(p: &Packet) -> &'static str {
             match p { $( Packet::$k(_) => stringify!($k), )* _ => "?" }
         }
+        /// One default-constructed packet of every kind.
+        pub fn default_packets() -> Vec<Packet> {
+            vec![ $( Packet::$k(Default::default()), )* ]
+        }
     };
 }
 packet_kinds!(
